@@ -341,11 +341,31 @@ def handle (j : Json) : Json :=
   let a := opOfJson (jget j "a")
   let fault := pcOfInt (jint (jget j "fault_pc"))
   let listOk := jbool (jget j "list_ok")
-  if kind == "fault" then
+  if kind == "hist" then
+    -- sequential history: the model runs every operation alone; state, result and RefInv after EVERY operation
+    let ops := (jarr (jget j "ops")).map opOfJson
+    let states := (jarr (jget j "states")).map rstOfJson
+    let oks := (jarr (jget j "oks")).map jbool
+    let listOks := (jarr (jget j "list_oks")).map jbool
+    let rec go (s : RState) (ops : List Op) (acc : List (RState × Bool)) : List (RState × Bool) :=
+      match ops with
+      | [] => acc.reverse
+      | o :: rest =>
+        let y := runTo 40 ⟨s, [{ op := o }]⟩ 0
+        go y.s rest ((y.s, (y.ts.map (·.ok)).getD 0 false) :: acc)
+    let ms := go pre ops []
+    let agree := ms.length == states.length &&
+      (List.zip ms (List.zip states oks)).all fun (m, st, ok) => (canon m.1).compress == (canon st).compress && m.2 == ok
+    let viol := ((List.zip states (List.range states.length)).flatMap fun (st, i) =>
+        (refViolations st).map fun v => s!"C22:after-{opName (ops.getD i (.remove 0))}:" ++ v).eraseDups ++
+      (if listOks.all (fun b => b) then [] else ["C22:list-workloads-fails"])
+    verdict id agree (Json.arr (ms.map fun m => canon m.1).toArray) viol s!"hist:{ops.length}" (ops.length < 2)
+  else if kind == "fault" then
     let y := runTo 40 ⟨pre, [{ op := a, fault := fault }]⟩ 0
     let okA := (y.ts.map (·.ok)).getD 0 false
     let agree := (canon y.s).compress == (canon impl).compress && okA == jbool (jget j "ok_a") && quiescent y
     let pat := if opName a == "removeNode" && fault == some .p4 then "removenode-plugin-fault:" else ""
+    let pat := if pat == "" && fault.isNone then s!"after-{opName a}:" else pat
     let viol := (refViolations impl).map (fun v => "C22:" ++ pat ++ v) ++
       (if listOk then [] else ["C22:" ++ pat ++ "list-workloads-fails"])
     verdict id agree (Json.mkObj [("state", canon y.s), ("ok_a", okA)]) viol
